@@ -297,6 +297,12 @@ Proof.
     + intros [= <- <- <-]. split; [lia|]. eexists; split; [exact I1|apply spop_snaps].
 Qed.
 
+Lemma match_pop_loop_some f inp (st : stk (list byte)) p : match_pop_loop f inp st p <> None.
+Proof.
+  revert st p; induction f as [|f IH]; intros st p; cbn [match_pop_loop]; [discriminate|].
+  destruct (pop st) as [st1 [x|]]; [|discriminate]. destruct (match_string inp p x); try discriminate. apply IH.
+Qed.
+
 Lemma untag_idem_head si r t t' p q : untagq (QEnd si r t p :: q) = untagq (QEnd si r t' p :: q).
 Proof. reflexivity. Qed.
 
@@ -334,9 +340,7 @@ Proof.
       * split; [eapply frame_trans; [apply frame_set_stack|apply frame_set_pos; cbn; lia]|].
         split; [unfold wf; cbn; lia|]. exists a'; auto.
       * split; [apply frame_set_stack|]. split; [exact W|]. exists a'; auto.
-    + exfalso. clear -E. revert E. generalize (S (length (cache (stack s)))) (stack s) (pos s).
-      intros f; induction f as [|f IH]; intros st p; cbn [match_pop_loop]; [discriminate|].
-      destruct (pop st) as [st1 [x|]]; [|discriminate]. destruct (match_string _ _ _); try discriminate. apply IH.
+    + exfalso. revert E. apply match_pop_loop_some.
   - unfold peek_slice. destruct (constrain_idxs _ _ _) as [[x y]|]; [|apply post_err_same; auto; apply frame_refl].
     destruct (Nat.leb y x); [apply post_ok_same; auto; apply frame_refl|].
     destruct (match_all _ _ _) as [p|] eqn:E; [|apply post_err_same; auto; apply frame_refl].
@@ -345,3 +349,411 @@ Proof.
     destruct (queue s) as [|[e p|si r tg p] q] eqn:Q; try (apply post_ok_same; auto; apply frame_refl).
     apply post_ok_same; auto. split; cbn; auto. exists []. rewrite Q. reflexivity.
 Qed.
+
+(* ---------- helpers for the combinators ---------- *)
+Lemma inc_call_frame s s1 : inc_call s = Some s1 ->
+  frame s s1 /\ stack s1 = stack s /\ pos s1 = pos s /\ queue s1 = queue s /\ input s1 = input s
+  /\ call_stacks s1 = call_stacks s /\ max_position s1 = max_position s.
+Proof.
+  unfold inc_call. destruct (limit_reached s); [discriminate|].
+  destruct (limit s); intros [= <-]; cbn; repeat split; cbn; auto; try lia; try (exists []; reflexivity).
+Qed.
+
+Lemma post_okerr s a s' : post s a (RErr s') -> post s a (ROk s').
+Proof. auto. Qed.
+Lemma post_errok s a s' : post s a (ROk s') -> post s a (RErr s').
+Proof. auto. Qed.
+
+Lemma untagq_length q : length (untagq q) = length q.
+Proof. apply map_length. Qed.
+
+Lemma vtruncate_app {A} (l1 l2 : list A) n : length l2 = n -> vtruncate n (l1 ++ l2) = l2.
+Proof.
+  intros <-. unfold vtruncate. rewrite app_length.
+  destruct (Nat.ltb (length l2) (length l1 + length l2)) eqn:L.
+  - replace (length l1 + length l2 - length l2) with (length l1 + 0) by lia.
+    rewrite skipn_app. rewrite Nat.add_0_r, skipn_all. replace (length l1 - length l1) with 0 by lia. reflexivity.
+  - apply Nat.ltb_ge in L. destruct l1; [reflexivity|cbn in L; lia].
+Qed.
+
+Lemma untagq_vtruncate n q : untagq (vtruncate n q) = vtruncate n (untagq q).
+Proof.
+  unfold vtruncate. rewrite untagq_length. destruct (Nat.ltb n (length q)); [|reflexivity].
+  unfold untagq. now rewrite skipn_map.
+Qed.
+
+Lemma untagq_truncate_back q0 q n new : untagq q = new ++ untagq q0 -> n = length q0 ->
+  untagq (vtruncate n q) = untagq q0.
+Proof. intros E ->. rewrite untagq_vtruncate, E. apply vtruncate_app. apply untagq_length. Qed.
+
+(* track only touches the three attempt fields *)
+Record same_but_attempts (s s' : pst) : Prop := {
+  t_input : input s' = input s; t_pos : pos s' = pos s; t_queue : queue s' = queue s;
+  t_la : lookahead s' = lookahead s; t_at : atomicity s' = atomicity s; t_stack : stack s' = stack s;
+  t_calls : calls s' = calls s; t_lim : limit s' = limit s; t_en : pa_enabled s' = pa_enabled s;
+  t_cs : call_stacks s' = call_stacks s; t_mp : max_position s' = max_position s;
+  t_ex : expected s' = expected s; t_un : unexpected s' = unexpected s
+}.
+Lemma track_same s r p pai nai prev : same_but_attempts s (track s r p pai nai prev).
+Proof.
+  unfold track. destruct (atom_eqb _ _); [split; reflexivity|].
+  destruct (_ && _); [split; reflexivity|].
+  destruct (Nat.eqb p (attempt_pos s)); cbn.
+  - match goal with |- context [Nat.ltb ?a ?b] => destruct (Nat.ltb a b) end; cbn;
+    match goal with |- context [Nat.eqb ?a ?b] => destruct (Nat.eqb a b) end; cbn;
+    try (match goal with |- context [negb ?x] => destruct x end); cbn; split; reflexivity.
+  - match goal with |- context [Nat.ltb ?a ?b] => destruct (Nat.ltb a b) end; cbn;
+    match goal with |- context [Nat.eqb ?a ?b] => destruct (Nat.eqb a b) end; cbn;
+    try (match goal with |- context [negb ?x] => destruct x end); cbn; split; reflexivity.
+Qed.
+
+Lemma try_add_new_stack_rule_ok s r k : k <= length (call_stacks s) ->
+  exists s', try_add_new_stack_rule s r k = Some s' /\ same_core s s' /\ max_position s' = max_position s
+             /\ k <= length (call_stacks s').
+Proof.
+  intros H. unfold try_add_new_stack_rule.
+  destruct (Nat.ltb (length (call_stacks s)) k) eqn:L; [apply Nat.ltb_lt in L; lia|].
+  set (tail := firstn (length (call_stacks s) - k) (call_stacks s)).
+  set (keep := skipn (length (call_stacks s) - k) (call_stacks s)).
+  assert (K : length keep = k) by (unfold keep; rewrite skipn_length; lia).
+  match goal with |- context [Nat.leb _ (length ?x)] => set (nt := x) end.
+  destruct (Nat.leb CALL_STACK_CHILDREN_THRESHOLD (length nt)).
+  - eexists. split; [reflexivity|]. split; [split; reflexivity|]. split; [reflexivity|]. cbn. lia.
+  - eexists. split; [reflexivity|]. split; [split; reflexivity|]. split; [reflexivity|]. cbn.
+    rewrite app_length. lia.
+Qed.
+
+Lemma untag_start x e p : untag x = QStart e p -> x = QStart e p.
+Proof. destruct x; cbn; congruence. Qed.
+
+Lemma set_start_end_ok q new e p old ni :
+  untagq q = new ++ QStart e p :: old ->
+  exists q', set_start_end q (length old) ni = Some q' /\ untagq q' = new ++ QStart ni p :: old /\ length q' = length q.
+Proof.
+  intros H. unfold untagq in H. apply map_eq_app in H. destruct H as (qn & r & -> & Hn & Hr).
+  apply map_eq_cons in Hr. destruct Hr as (x & qo & -> & Hx & Ho). apply untag_start in Hx. subst x.
+  unfold set_start_end. rewrite app_length. cbn [length].
+  assert (Lo : length old = length qo) by (rewrite <- Ho; apply map_length).
+  rewrite Lo.
+  destruct (Nat.ltb (length qo) (length qn + S (length qo))) eqn:L; [|apply Nat.ltb_ge in L; lia].
+  replace (length qn + S (length qo) - 1 - length qo) with (length qn) by lia.
+  rewrite nth_error_app2 by lia. rewrite Nat.sub_diag. cbn [nth_error].
+  eexists. split; [reflexivity|]. split.
+  - rewrite firstn_app, firstn_all, Nat.sub_diag. cbn [firstn]. rewrite app_nil_r.
+    replace (S (length qn)) with (length qn + 1) by lia. rewrite skipn_app.
+    rewrite skipn_all2 by lia. replace (length qn + 1 - length qn) with 1 by lia. cbn [app].
+    unfold untagq. rewrite map_app. cbn [map untag]. rewrite Hn. f_equal. f_equal.
+    change (skipn 1 (QStart e p :: qo)) with qo. exact Ho.
+  - rewrite firstn_app, firstn_all, Nat.sub_diag. cbn [firstn]. rewrite app_nil_r.
+    rewrite !app_length. cbn [length]. rewrite skipn_length, app_length. cbn [length]. lia.
+Qed.
+
+(* ---------- rule() ---------- *)
+Record same_but_queue (s s' : pst) : Prop := {
+  q_input : input s' = input s; q_pos : pos s' = pos s;
+  q_la : lookahead s' = lookahead s; q_at : atomicity s' = atomicity s; q_stack : stack s' = stack s;
+  q_calls : calls s' = calls s; q_lim : limit s' = limit s; q_en : pa_enabled s' = pa_enabled s;
+  q_cs : call_stacks s' = call_stacks s; q_mp : max_position s' = max_position s;
+  q_pa : pos_attempts s' = pos_attempts s; q_na : neg_attempts s' = neg_attempts s; q_ap : attempt_pos s' = attempt_pos s
+}.
+
+Lemma rule_enter_spec s1 :
+  let fr := fst (rule_enter s1) in let s2 := snd (rule_enter s1) in
+  rf_pos fr = pos s1 /\ rf_index fr = length (queue s1) /\ rf_csn fr = length (call_stacks s1) /\ rf_max fr = max_position s1 /\
+  queue s2 = (if emits s1 then QStart 0 (pos s1) :: queue s1 else queue s1) /\ same_but_queue s1 s2.
+Proof.
+  unfold rule_enter. destruct (Nat.eqb (pos s1) (attempt_pos s1)); destruct (emits s1); cbn;
+    repeat split; reflexivity.
+Qed.
+
+Lemma emits_frame s s' : lookahead s' = lookahead s -> atomicity s' = atomicity s -> emits s' = emits s.
+Proof. unfold emits. intros -> ->. reflexivity. Qed.
+
+Lemma frame_rule_enter s1 : frame s1 (snd (rule_enter s1)).
+Proof.
+  destruct (rule_enter_spec s1) as (_ & _ & _ & _ & Q & []).
+  split; try congruence; try lia.
+  - intros _. rewrite q_cs0. lia.
+  - rewrite Q. destruct (emits s1); [exists [QStart 0 (pos s1)]|exists []]; reflexivity.
+Qed.
+
+Lemma csn_ok s2 s' (fr_csn fr_max : nat) :
+  frame s2 s' -> fr_csn = length (call_stacks s2) -> fr_max = max_position s2 ->
+  (if Nat.ltb fr_max (max_position s') then 0 else fr_csn) <= length (call_stacks s').
+Proof.
+  intros F -> ->. destruct (Nat.ltb (max_position s2) (max_position s')) eqn:L; [lia|].
+  apply Nat.ltb_ge in L. destruct F. apply f_cs0. lia.
+Qed.
+
+Lemma try_add_rule_to_stack_ok s r csn mx : 
+  (if Nat.ltb mx (max_position s) then 0 else csn) <= length (call_stacks s) ->
+  exists s3, try_add_rule_to_stack s r csn mx = Some s3 /\ same_core s s3 /\ max_position s3 = max_position s /\
+    ((if Nat.ltb mx (max_position s) then 0 else csn) <= length (call_stacks s3)).
+Proof.
+  intros H. unfold try_add_rule_to_stack. destruct (negb (atom_eqb (atomicity s) Atomic)).
+  - apply try_add_new_stack_rule_ok. exact H.
+  - exists s. split; [reflexivity|]. split; [apply same_core_refl|]. auto.
+Qed.
+
+(* finishing a frame from s1 given the body's frame from s2 = snd (rule_enter s1) *)
+Lemma rule_finish_frame s1 s' s3 :
+  frame (snd (rule_enter s1)) s' ->
+  input s3 = input s' -> lookahead s3 = lookahead s' -> atomicity s3 = atomicity s' -> limit s3 = limit s' ->
+  pa_enabled s3 = pa_enabled s' -> calls s3 = calls s' -> pos s3 = pos s' -> max_position s3 = max_position s' ->
+  (max_position s' = max_position s1 -> length (call_stacks s1) <= length (call_stacks s3)) ->
+  (exists new, untagq (queue s3) = new ++ untagq (queue s1)) ->
+  frame s1 s3.
+Proof.
+  intros F. destruct (rule_enter_spec s1) as (_ & _ & _ & _ & Q & []). destruct F.
+  intros. split; try congruence; try lia.
+Qed.
+
+Lemma rule_ok_post rule s1 s' a a' :
+  wf s' -> frame (snd (rule_enter s1)) s' -> Inv (stack s') a' -> snaps a' = snaps a ->
+  post s1 a (rule_ok rule (fst (rule_enter s1)) s').
+Proof.
+  intros W F I S.
+  destruct (rule_enter_spec s1) as (Rp & Ri & Rc & Rm & Q & SQ). destruct SQ.
+  set (fr := fst (rule_enter s1)) in *. set (s2 := snd (rule_enter s1)) in *.
+  unfold rule_ok.
+  set (sa := if lk_eqb (lookahead s') LNeg then track s' rule (rf_pos fr) (rf_pai fr) (rf_nai fr) (rf_attempts fr) else s').
+  assert (T : same_but_attempts s' sa).
+  { unfold sa. destruct (lk_eqb (lookahead s') LNeg); [apply track_same|split; reflexivity]. }
+  destruct T. pose proof F as F0. destruct F0.
+  assert (Em : emits sa = emits s1).
+  { unfold emits. rewrite t_la0, t_at0, f_la0, f_at0, q_la0, q_at0. reflexivity. }
+  rewrite Em.
+  assert (CS : (if Nat.ltb (rf_max fr) (max_position s') then 0 else rf_csn fr) <= length (call_stacks s')).
+  { apply (csn_ok s2); auto; congruence. }
+  destruct (emits s1) eqn:Ee.
+  - (* the rule emits its pair *)
+    destruct f_queue0 as [new Eq]. rewrite Q in Eq. cbn [untagq map untag] in Eq. fold (untagq (queue s1)) in Eq.
+    rewrite <- t_queue0 in Eq.
+    destruct (set_start_end_ok (queue sa) new 0 (pos s1) (untagq (queue s1)) (length (queue sa)) Eq) as (q' & E1 & E2 & E3).
+    rewrite untagq_length in E1. rewrite Ri, E1.
+    set (sb := set_queue sa (QEnd (length (queue s1)) rule None (pos sa) :: q')).
+    assert (QB : exists nw, untagq (queue sb) = nw ++ untagq (queue s1)).
+    { exists (QEnd (length (queue s1)) rule None (pos sa) :: new ++ [QStart (length (queue sa)) (pos s1)]).
+      cbn. fold (untagq q'). rewrite E2. rewrite <- app_assoc. reflexivity. }
+    change (pa_enabled sb) with (pa_enabled sa).
+    destruct (pa_enabled sa) eqn:En.
+    + destruct (try_add_rule_to_stack_ok sb rule (rf_csn fr) (rf_max fr)) as (s3 & E & C & M & K).
+      { cbn. rewrite t_mp0, t_cs0. exact CS. }
+      rewrite E. cbn. destruct C. unfold sb in *. cbn in *.
+      split; [|split; [unfold wf in *; rewrite c_pos0, c_input0; cbn; congruence|exists a'; split; [rewrite c_stack0; cbn; congruence|auto]]].
+      apply (rule_finish_frame s1 s' s3 F); cbn in *; try congruence.
+      * intros E'. rewrite t_mp0 in K. destruct (Nat.ltb (rf_max fr) (max_position s')) eqn:L.
+        { apply Nat.ltb_lt in L. lia. } { lia. }
+      * rewrite c_queue0. exact QB.
+    + cbn. split; [|split; [unfold wf in *; cbn; congruence|exists a'; split; [cbn; congruence|auto]]].
+      apply (rule_finish_frame s1 s' sb F); cbn in *; try congruence.
+      intros E'. rewrite t_cs0. destruct (Nat.ltb (rf_max fr) (max_position s')) eqn:L; [apply Nat.ltb_lt in L; lia|lia].
+  - (* silent: under look-ahead or in an atomic rule *)
+    assert (QB : exists nw, untagq (queue sa) = nw ++ untagq (queue s1)).
+    { destruct f_queue0 as [new Eq]. rewrite Q in Eq. exists new. congruence. }
+    destruct (pa_enabled sa) eqn:En.
+    + destruct (try_add_rule_to_stack_ok sa rule (rf_csn fr) (rf_max fr)) as (s3 & E & C & M & K).
+      { rewrite t_mp0, t_cs0. exact CS. }
+      rewrite E. cbn. destruct C.
+      split; [|split; [unfold wf in *; rewrite c_pos0, c_input0; congruence|exists a'; split; [rewrite c_stack0; congruence|auto]]].
+      apply (rule_finish_frame s1 s' s3 F); try congruence.
+      * intros E'. rewrite t_mp0 in K. destruct (Nat.ltb (rf_max fr) (max_position s')) eqn:L; [apply Nat.ltb_lt in L; lia|lia].
+      * rewrite c_queue0. exact QB.
+    + cbn. split; [|split; [unfold wf in *; congruence|exists a'; split; [congruence|auto]]].
+      apply (rule_finish_frame s1 s' sa F); try congruence.
+      intros E'. rewrite t_cs0. destruct (Nat.ltb (rf_max fr) (max_position s')) eqn:L; [apply Nat.ltb_lt in L; lia|lia].
+Qed.
+
+Lemma rule_err_post rule s1 s' a a' :
+  wf s' -> frame (snd (rule_enter s1)) s' -> Inv (stack s') a' -> snaps a' = snaps a ->
+  post s1 a (rule_err rule (fst (rule_enter s1)) s').
+Proof.
+  intros W F I S.
+  destruct (rule_enter_spec s1) as (Rp & Ri & Rc & Rm & Q & SQ). destruct SQ.
+  set (fr := fst (rule_enter s1)) in *. set (s2 := snd (rule_enter s1)) in *.
+  unfold rule_err. pose proof F as F0. destruct F0.
+  assert (CS : (if Nat.ltb (rf_max fr) (max_position s') then 0 else rf_csn fr) <= length (call_stacks s')).
+  { apply (csn_ok s2); auto; congruence. }
+  (* the state after the optional tracking step *)
+  assert (R1 : exists s3,
+     (if negb (lk_eqb (lookahead s') LNeg)
+      then let t := track s' rule (rf_pos fr) (rf_pai fr) (rf_nai fr) (rf_attempts fr) in
+           if pa_enabled t then try_add_rule_to_stack t rule (rf_csn fr) (rf_max fr) else Some t
+      else Some s') = Some s3 /\
+     input s3 = input s' /\ pos s3 = pos s' /\ queue s3 = queue s' /\ lookahead s3 = lookahead s' /\
+     atomicity s3 = atomicity s' /\ stack s3 = stack s' /\ calls s3 = calls s' /\ limit s3 = limit s' /\
+     pa_enabled s3 = pa_enabled s' /\ max_position s3 = max_position s' /\
+     (if Nat.ltb (rf_max fr) (max_position s') then 0 else rf_csn fr) <= length (call_stacks s3)).
+  { destruct (negb (lk_eqb (lookahead s') LNeg)).
+    - cbv zeta. set (t := track s' rule (rf_pos fr) (rf_pai fr) (rf_nai fr) (rf_attempts fr)).
+      destruct (track_same s' rule (rf_pos fr) (rf_pai fr) (rf_nai fr) (rf_attempts fr)). fold t in t_input0, t_pos0, t_queue0, t_la0, t_at0, t_stack0, t_calls0, t_lim0, t_en0, t_cs0, t_mp0, t_ex0, t_un0.
+      destruct (pa_enabled t) eqn:En.
+      + destruct (try_add_rule_to_stack_ok t rule (rf_csn fr) (rf_max fr)) as (s3 & E & C & M & K).
+        { rewrite t_mp0, t_cs0. exact CS. }
+        exists s3. destruct C. rewrite t_mp0 in K. repeat split; try congruence.
+      + exists t. rewrite t_cs0. repeat split; try congruence.
+    - exists s'. repeat split; auto. }
+  destruct R1 as (s3 & E & H1 & H2 & H3 & H4 & H5 & H6 & H7 & H8 & H9 & H10 & H11).
+  cbv zeta in E. rewrite E.
+  assert (Em : emits s3 = emits s1).
+  { unfold emits. rewrite H4, H5, f_la0, f_at0, q_la0, q_at0. reflexivity. }
+  rewrite Em.
+  assert (CSF : max_position s' = max_position s1 -> length (call_stacks s1) <= length (call_stacks s3)).
+  { intros E'. destruct (Nat.ltb (rf_max fr) (max_position s')) eqn:L; [apply Nat.ltb_lt in L; lia|lia]. }
+  destruct (emits s1) eqn:Ee.
+  - cbn. split; [|split; [unfold wf in *; cbn; congruence|exists a'; split; [cbn; congruence|auto]]].
+    apply (rule_finish_frame s1 s' _ F); cbn; try congruence; try exact CSF.
+    exists []. cbn. destruct f_queue0 as [new Eq]. rewrite Q in Eq. cbn [untagq map untag] in Eq. fold (untagq (queue s1)) in Eq.
+    rewrite H3. rewrite Ri.
+    apply (untagq_truncate_back (queue s1) (queue s') (length (queue s1)) (new ++ [QStart 0 (pos s1)])); auto.
+    rewrite Eq, <- app_assoc. reflexivity.
+  - cbn. split; [|split; [unfold wf in *; congruence|exists a'; split; [congruence|auto]]].
+    apply (rule_finish_frame s1 s' s3 F); try congruence; try exact CSF.
+    destruct f_queue0 as [new Eq]. rewrite Q in Eq. exists new. congruence.
+Qed.
+
+(* ---------- the frame theorem ---------- *)
+Lemma snaps_ssnapshot (a : sspec) : snaps (ssnapshot a) = cur a :: snaps a.
+Proof. reflexivity. Qed.
+
+Lemma checkpoint_ok_post s0 a0 s' a' (k : pst -> res) (kk : forall x, k x = ROk x \/ k x = RErr x) :
+  frame s0 s' -> wf s' -> Inv (stack s') a' -> snaps a' = cur a0 :: snaps a0 ->
+  post s0 a0 (lift k (checkpoint_ok s')).
+Proof.
+  intros F W I S. unfold checkpoint_ok. destruct (inv_clear I) as (st & E & I2). rewrite E. cbn [option_map lift].
+  assert (P : post s0 a0 (ROk (set_stack s' st))).
+  { cbn. split; [eapply frame_trans; [exact F|apply frame_set_stack]|]. split; [exact W|].
+    exists (sclear a'). split; [exact I2|]. cbn. rewrite S. reflexivity. }
+  destruct (kk (set_stack s' st)) as [-> | ->]; exact P.
+Qed.
+
+Lemma restore_post s0 a0 s' a' (k : pst -> res) (kk : forall x, k x = ROk x \/ k x = RErr x) :
+  frame s0 s' -> wf s' -> Inv (stack s') a' -> snaps a' = cur a0 :: snaps a0 ->
+  post s0 a0 (lift k (restore_st s')).
+Proof.
+  intros F W I S. unfold restore_st. destruct (inv_restore I) as (st & E & I2). rewrite E. cbn [option_map lift].
+  assert (P : post s0 a0 (ROk (set_stack s' st))).
+  { cbn. split; [eapply frame_trans; [exact F|apply frame_set_stack]|]. split; [exact W|].
+    exists (srestore a'). split; [exact I2|]. unfold srestore. rewrite S. reflexivity. }
+  destruct (kk (set_stack s' st)) as [-> | ->]; exact P.
+Qed.
+
+Section FrameTheorem.
+Variable cfg : config.
+Variable E : env.
+
+Theorem exec_post : forall fuel p s a, wf s -> Inv (stack s) a -> post s a (exec cfg E fuel p s).
+Proof.
+  induction fuel as [|fuel IH]; intros p s a W I; [exact Logic.I|].
+  destruct p; cbn [exec].
+  - (* PPrim *) now apply exec_prim_post.
+  - (* PRule *)
+    destruct (inc_call s) as [s1|] eqn:Ei; [|apply post_err_same; auto; apply frame_refl].
+    destruct (inc_call_frame _ _ Ei) as (F1 & St & Po & Qu & In & _).
+    destruct (rule_enter s1) as [fr s2] eqn:Er.
+    assert (Hfr : fr = fst (rule_enter s1)) by now rewrite Er. assert (Hs2 : s2 = snd (rule_enter s1)) by now rewrite Er.
+    destruct (rule_enter_spec s1) as (_ & _ & _ & _ & _ & SQ). rewrite <- Hs2 in SQ. destruct SQ.
+    assert (W2 : wf s2) by (unfold wf in *; congruence).
+    assert (I2 : Inv (stack s2) a) by (rewrite q_stack0, St; exact I).
+    specialize (IH p s2 a W2 I2).
+    eapply post_trans; [exact F1|reflexivity|].
+    destruct (exec cfg E fuel p s2) as [s'|s'|k|]; cbn in IH; auto.
+    + destruct IH as (F & W' & a' & I' & S'). subst fr s2. eapply rule_ok_post; eauto.
+    + destruct IH as (F & W' & a' & I' & S'). subst fr s2. eapply rule_err_post; eauto.
+  - (* PSequence *)
+    destruct (inc_call s) as [s1|] eqn:Ei; [|apply post_err_same; auto; apply frame_refl].
+    destruct (inc_call_frame _ _ Ei) as (F1 & St & Po & Qu & In & _).
+    assert (W1 : wf s1) by (unfold wf in *; congruence).
+    assert (I1 : Inv (stack (checkpoint s1)) (ssnapshot a)) by (cbn; rewrite St; now apply inv_snapshot).
+    specialize (IH p (checkpoint s1) (ssnapshot a) W1 I1).
+    eapply post_trans; [exact F1|reflexivity|].
+    assert (Fc : frame s1 (checkpoint s1)) by apply frame_set_stack.
+    destruct (exec cfg E fuel p (checkpoint s1)) as [s'|s'|k|]; cbn in IH; auto.
+    + destruct IH as (F & W' & a' & I' & S').
+      apply (checkpoint_ok_post s1 a s' a' ROk); auto. eapply frame_trans; eauto.
+    + destruct IH as (F & W' & a' & I' & S').
+      apply (restore_post s1 a _ a' RErr); auto.
+      * destruct F. split; cbn in *; try congruence; try lia.
+        exists []. cbn. destruct f_queue0 as [new Eq]. eapply untagq_truncate_back; eauto.
+      * unfold wf in *. cbn. destruct F. cbn in *. congruence.
+  - (* PRepeat *)
+    destruct (inc_call s) as [s1|] eqn:Ei; [|apply post_err_same; auto; apply frame_refl].
+    destruct (inc_call_frame _ _ Ei) as (F1 & St & Po & Qu & In & _).
+    eapply post_trans; [exact F1|reflexivity|]. apply IH; [unfold wf in *; congruence|rewrite St; exact I].
+  - (* PRepeatLoop *)
+    specialize (IH p s a W I) as IH1.
+    destruct (exec cfg E fuel p s) as [s'|s'|k|]; cbn in IH1; auto.
+    destruct IH1 as (F & W' & a' & I' & S'). eapply post_trans; [exact F|exact S'|]. now apply IH.
+  - (* POptional *)
+    destruct (inc_call s) as [s1|] eqn:Ei; [|apply post_err_same; auto; apply frame_refl].
+    destruct (inc_call_frame _ _ Ei) as (F1 & St & Po & Qu & In & _).
+    eapply post_trans; [exact F1|reflexivity|].
+    assert (P : post s1 a (exec cfg E fuel p s1)) by (apply IH; [unfold wf in *; congruence|rewrite St; exact I]).
+    destruct (exec cfg E fuel p s1); auto.
+  - (* PLookahead *)
+    destruct (inc_call s) as [s1|] eqn:Ei; [|apply post_err_same; auto; apply frame_refl].
+    destruct (inc_call_frame _ _ Ei) as (F1 & St & Po & Qu & In & _).
+    eapply post_trans; [exact F1|reflexivity|].
+    set (s2 := set_lookahead s1 (enter_lookahead positive (lookahead s1))).
+    assert (W2 : wf (checkpoint s2)) by (unfold wf in *; cbn; congruence).
+    assert (I2 : Inv (stack (checkpoint s2)) (ssnapshot a)) by (cbn; rewrite St; now apply inv_snapshot).
+    specialize (IH p (checkpoint s2) (ssnapshot a) W2 I2).
+    destruct (exec cfg E fuel p (checkpoint s2)) as [s'|s'|k|]; cbn in IH; auto.
+    + destruct IH as (F & W' & a' & I' & S').
+      apply (restore_post s1 a _ a' (fun x => if positive then ROk x else RErr x)); auto.
+      * intros x; destruct positive; auto.
+      * destruct F. split; cbn in *; try congruence; try lia. destruct f_queue0 as [new Eq]. exists new. exact Eq.
+      * unfold wf in *. cbn. destruct F. cbn in *. congruence.
+    + destruct IH as (F & W' & a' & I' & S').
+      apply (restore_post s1 a _ a' (fun x => if positive then RErr x else ROk x)); auto.
+      * intros x; destruct positive; auto.
+      * destruct F. split; cbn in *; try congruence; try lia. destruct f_queue0 as [new Eq]. exists new. exact Eq.
+      * unfold wf in *. cbn. destruct F. cbn in *. congruence.
+  - (* PAtomic *)
+    destruct (inc_call s) as [s1|] eqn:Ei; [|apply post_err_same; auto; apply frame_refl].
+    destruct (inc_call_frame _ _ Ei) as (F1 & St & Po & Qu & In & _).
+    eapply post_trans; [exact F1|reflexivity|].
+    assert (W1 : wf s1) by (unfold wf in *; congruence).
+    assert (I1 : Inv (stack s1) a) by (rewrite St; exact I).
+    destruct (atom_eqb (atomicity s1) a0) eqn:T; cbn [negb].
+    + specialize (IH p s1 a W1 I1). destruct (exec cfg E fuel p s1) as [s'|s'|k|]; auto.
+    + assert (W2 : wf (set_atomicity s1 a0)) by exact W1.
+      assert (I2 : Inv (stack (set_atomicity s1 a0)) a) by exact I1.
+      specialize (IH p (set_atomicity s1 a0) a W2 I2).
+      destruct (exec cfg E fuel p (set_atomicity s1 a0)) as [s'|s'|k|]; cbn in IH; auto.
+      * destruct IH as (F & W' & a' & I' & S'). cbn.
+        split; [|split; [exact W'|exists a'; split; [exact I'|exact S']]].
+        destruct F. cbn in *. split; cbn; try congruence; try lia. exact f_queue0.
+      * destruct IH as (F & W' & a' & I' & S'). cbn.
+        split; [|split; [exact W'|exists a'; split; [exact I'|exact S']]].
+        destruct F. cbn in *. split; cbn; try congruence; try lia. exact f_queue0.
+  - (* PStackPush *)
+    destruct (inc_call s) as [s1|] eqn:Ei; [|apply post_err_same; auto; apply frame_refl].
+    destruct (inc_call_frame _ _ Ei) as (F1 & St & Po & Qu & In & _).
+    eapply post_trans; [exact F1|reflexivity|].
+    assert (P : post s1 a (exec cfg E fuel p s1)) by (apply IH; [unfold wf in *; congruence|rewrite St; exact I]).
+    destruct (exec cfg E fuel p s1) as [s'|s'|k|]; auto.
+    cbn in P. destruct P as (F & W' & a' & I' & S').
+    destruct (Nat.ltb (pos s') (pos s1)) eqn:L; [apply Nat.ltb_lt in L; destruct F; lia|].
+    cbn. split; [eapply frame_trans; [exact F|apply frame_set_stack]|]. split; [exact W'|].
+    eexists. split; [apply inv_push; exact I'|exact S'].
+  - (* PRestoreOnErr *)
+    assert (I1 : Inv (stack (checkpoint s)) (ssnapshot a)) by (cbn; now apply inv_snapshot).
+    specialize (IH p (checkpoint s) (ssnapshot a) W I1).
+    assert (Fc : frame s (checkpoint s)) by apply frame_set_stack.
+    destruct (exec cfg E fuel p (checkpoint s)) as [s'|s'|k|]; cbn in IH; auto.
+    + destruct IH as (F & W' & a' & I' & S'). apply (checkpoint_ok_post s a s' a' ROk); auto. eapply frame_trans; eauto.
+    + destruct IH as (F & W' & a' & I' & S'). apply (restore_post s a s' a' RErr); auto. eapply frame_trans; eauto.
+  - (* PAndThen *)
+    specialize (IH p1 s a W I) as IH1.
+    destruct (exec cfg E fuel p1 s) as [s'|s'|k|]; cbn in IH1; auto.
+    destruct IH1 as (F & W' & a' & I' & S'). eapply post_trans; [exact F|exact S'|]. now apply IH.
+  - (* POrElse *)
+    specialize (IH p1 s a W I) as IH1.
+    destruct (exec cfg E fuel p1 s) as [s'|s'|k|]; cbn in IH1; auto.
+    destruct IH1 as (F & W' & a' & I' & S'). eapply post_trans; [exact F|exact S'|]. now apply IH.
+  - (* PIfNonAtomic *) destruct (atom_eqb (atomicity s) NonAtomic); now apply IH.
+  - (* PCall *) destruct (E f); [now apply IH|cbn; discriminate].
+Qed.
+
+End FrameTheorem.
